@@ -534,6 +534,26 @@ func genScript(t *rapid.T) Script {
 		case 10:
 			sc.Elems = append(sc.Elems, Elem{Kind: "client_done"})
 		case 11:
+			if rapid.Bool().Draw(t, "textNotUTF8") {
+				// a proper work-start or signal frame in which one text string (the run ID, the step / signal ID) is
+				// not valid UTF-8: well-formed CBOR framing, but no valid CBOR text - a conforming peer cannot decode it
+				run := rapid.SampledFrom(runs).Draw(t, "run")
+				frame := atpx.WorkStart(run, "do", atpx.StepConfig("success", "", run))
+				if rapid.Bool().Draw(t, "badTextInSignal") {
+					frame = atpx.Signal(run, "poke", map[string]any{"x": int64(1)})
+				}
+				victim := rapid.SampledFrom([]string{run, "do", "poke", "run_id"}).Draw(t, "badTextWhere")
+				if i := bytes.Index(frame, []byte(victim)); i >= 0 {
+					frame = append([]byte(nil), frame...)
+					frame[i] = 0xff
+					if len(victim) > 1 {
+						frame[i+1] = 0xfe
+					}
+					sc.Elems = append(sc.Elems, Elem{Kind: "raw", Raw: frame})
+					ev.Class("frame_with_text_not_utf8", 1)
+					break
+				}
+			}
 			sc.Elems = append(sc.Elems, Elem{Kind: "raw", Raw: atpx.StartOutput(rapid.SampledFrom([]any{int64(1), "x", []any{}, map[string]any{"id": "one"}}).Draw(t, "validNonMessage"))})
 		}
 	}
